@@ -21,3 +21,7 @@ CHECKS["C18"] = checks_mon.c18
 import checks_misc
 CHECKS["C19"] = checks_misc.c19
 CHECKS["C20"] = checks_misc.c20
+import checks_cfg
+CHECKS["C02"] = checks_cfg.c02
+CHECKS["C01"] = checks_cfg.c01
+CHECKS["C03"] = checks_cfg.c03
